@@ -131,4 +131,56 @@ theorem all_guards_present :
     Generated.Constants.guardCumulative = true ∧ Generated.Constants.guardEmaGrouped = true ∧
     Generated.Constants.guardEmaGroupedTimed = true := by decide
 
+/-! ### stated about the translated source -/
+
+/-- **reductions (translated source)**: the translated `_group_by_reduce` gives every group the same result on the
+rows with the null-key rows deleted -/
+theorem source_null_rows_inert_reduction (kn : Kernel) (k : Kind) (n : Nat) (rows : List Row) (g : Int) (hg : 0 ≤ g) :
+    let r := C03.srcRun kn k n rows
+    let q := C03.srcRun kn k n (rows.filter (fun r => 0 ≤ r.1))
+    (r.1 g, r.2 g) = (q.1 g, q.2 g) := by
+  intro r q
+  show ((C03.srcRun kn k n rows).1 g, (C03.srcRun kn k n rows).2 g)
+    = ((C03.srcRun kn k n (rows.filter (fun r => 0 ≤ r.1))).1 g, (C03.srcRun kn k n (rows.filter (fun r => 0 ≤ r.1))).2 g)
+  rw [C03.srcRun_eq kn k n rows g hg, C03.srcRun_eq kn k n _ g hg]
+  exact null_rows_inert_reduction kn k rows g hg
+
+/-- **cumulative operations (translated source)**: at every row with a non-null key the translated
+`_cumulative_reduce` writes what it writes, at the row's rank, on the data with the null-key rows deleted -/
+theorem source_cum_null_rows_inert (op : CumOp) (k : Kind) (ng : Int) (rows : List CRow)
+    (hn : (rows.length : Int) < 2 ^ 32) (i : Nat) (r : CRow) (hi : rows[i]? = some r) (hc : 0 ≤ r.code) :
+    (C05.srcCum op k ng rows).1.1 (i : Int) = (C05.srcCum op k ng (dropNull rows)).1.1 (rankNonNull rows i : Int) := by
+  have hlt : i < rows.length := by
+    rcases Nat.lt_or_ge i rows.length with h | h
+    · exact h
+    · rw [List.getElem?_eq_none_iff.mpr h] at hi; simp at hi
+  obtain ⟨hf, _⟩ := dropNull_at_rank rows i r hi hc
+  have hlt' : rankNonNull rows i < (dropNull rows).length := by
+    rcases Nat.lt_or_ge (rankNonNull rows i) (dropNull rows).length with h | h
+    · exact h
+    · rw [List.getElem?_eq_none_iff.mpr h] at hf; simp at hf
+  have hle : (dropNull rows).length ≤ rows.length := List.length_filter_le _ _
+  rw [C05.srcCum_eq op k ng rows hn i hlt, C05.srcCum_eq op k ng (dropNull rows) (by omega) _ hlt']
+  unfold LoopBridge.outAt
+  rw [cum_null_rows_inert op k rows i r hi hc]
+
+/-- a null-key row of the translated cumulative loop keeps the target's initial value (it is overwritten with the
+null marker afterwards): a constant that depends on no other row -/
+theorem source_cum_null_row_marker (op : CumOp) (k : Kind) (ng : Int) (rows : List CRow)
+    (hn : (rows.length : Int) < 2 ^ 32) (i : Nat) (r : CRow) (hi : rows[i]? = some r) (hc : r.code < 0) :
+    (C05.srcCum op k ng rows).1.1 (i : Int) = op.init k := by
+  have hlt : i < rows.length := by
+    rcases Nat.lt_or_ge i rows.length with h | h
+    · exact h
+    · rw [List.getElem?_eq_none_iff.mpr h] at hi; simp at hi
+  rw [C05.srcCum_eq op k ng rows hn i hlt]
+  unfold LoopBridge.outAt
+  rw [cum_null_row_marker _ _ rows i r hi hc]
+
+/-- non-vacuity: cumsum, a null-key row between two rows of group 0 -/
+example :
+    let rows : List CRow := [⟨0, .num 3, true⟩, ⟨-1, .num 50, true⟩, ⟨0, .num 4, true⟩]
+    ((C05.srcCum .sum .f 1 rows).1.1 2, (C05.srcCum .sum .f 1 (dropNull rows)).1.1 1, rankNonNull rows 2)
+      = (.num 7, .num 7, 1) := by unfold C05.srcCum; decide
+
 end GV.C06
